@@ -166,6 +166,9 @@ def run(tier):
     # the verdict clauses of the whole pass (use_variable, the Assignment and Deref arms, what declarations record)
     import mutcheck
     MC = mutcheck.run(tier)
+    # the copy clauses (E531-E533) of function_calls.rs, on the same bookkeeping
+    import fcallcheck
+    fcallcheck.run(MC)
     if MC.unconfirmed and not (MC.pending or pending):
         raise Inconclusive('; '.join(MC.unconfirmed[:3]))
     known = known_keys(PROP)
@@ -181,12 +184,13 @@ def run(tier):
         out_v.append((what, rp))
     for qname, text, line, got_ in MC.pending:
         key = '%s:%s' % (qname, line)
-        what = '%s fails for [%s]: the mutability pass answers %s (%s)' % (qname, line, got_, text)
+        what = '%s fails for [%s]: the pass answers %s (%s)' % (qname, line, got_, text)
         if key in known:
             log('KNOWN-FINDING: property=%s %s' % (PROP, what))
             continue
-        rp = write_replay(PROP, key, {'property': PROP, 'query': qname, 'statement': text, 'request': line, 'native': got_,
-                                      'how': 'echo "%s" | pv_replay mutpass-eval' % line})
+        tool = 'fcall-eval' if qname.startswith('copy:') else ('typer-eval' if line.startswith('declared ') else 'mutpass-eval')
+        rp = write_replay(PROP, key, {'property': PROP, 'query': qname, 'statement': text, 'request': line, 'native': got_, 'tool': tool,
+                                      'how': 'echo "%s" | pv_replay %s' % (line, tool)})
         out_v.append((what, rp))
     queries += MC.queries
     solver_s += MC.solver_s
@@ -209,7 +213,8 @@ def run(tier):
         'solver_time_s': round(solver_s, 3), 'symbolic_execution_s': round(exec_s, 3), 'mir_dump_s': round(dump_s, 2),
         'std_models_used': {k: int(v) for k, v in ex.used_models.items()},
         'outside_claim': ['how the arms compose over whole function bodies (each arm is decided on its own, children havoc)',
-                          'E531-E533 and E513 (function_calls.rs)', 'the run-time non-interference consequence'],
+                          'E513 and argument checking (use_function, can_hint_missing_address); index expressions inside references in the copy clauses',
+                          'the run-time non-interference consequence'],
     }
     write_evidence(PROP, tier, 'model_checking', cov, wall,
                    ['rustc nightly MIR dump', 'mirsym and its models (Vec as fixed slots with symbolic length, slice iterator)',
@@ -227,7 +232,9 @@ def replay_file(path):
     r = json.load(open(path))
     if 'request' in r:
         import mutcheck
-        got = mutcheck.native([r['request']])[0]
+        import fcallcheck
+        tool = r.get('tool', 'mutpass-eval')
+        got = (fcallcheck.native if tool == 'fcall-eval' else (mutcheck.native_typer if tool == 'typer-eval' else mutcheck.native))([r['request']])[0]
         log('native mutability pass [%s] -> %s (recorded %s)' % (r['request'], got, r['native']))
         if got == r['native']:
             log('VIOLATION property=%s replay=%s' % (PROP, path))
